@@ -668,20 +668,21 @@ func isTrustedAccessor(fn *ssa.Function) bool {
 
 // named, reasoned exceptions (one construct each)
 var idxExceptions = map[string]string{
-	"IP6Prefix:addr[+i]":          "IPv6 group index bounded by the colon count (<= 7 colons are accepted before the group index can reach 8): a relational value invariant of IP6Prefix, read and accepted, not re-proved",
-	"IP6Prefix:addr[+i]#2":        "same cell as addr[i] (read-modify-write of one group)",
-	"IP6Prefix:L:addrBuf2[:+i]":   "number of groups after '::' bounded by the colon count (same invariant as addr[i])",
-	"GetMsgSig:L:sig.HdrSig[+L:sig.HdrSigLen]": "write index bounded by the early return: HdrSigLen starts at 0 and every increment is immediately followed by `if HdrSigLen >= len(HdrSig) { return }` (checked structurally)",
-	"MsgSig.String:L:s.HdrSig[+i]":   "i < s.HdrSigLen, and HdrSigLen is stored only by GetMsgSig where it stays <= len(HdrSig) (who-writes checked); a caller that forges HdrSigLen in the exported struct is outside the property",
-	"MsgSig.String:L:s.HdrSig[+i]#2": "same loop",
-	"MsgSig.String:L:s.HdrSig[+i]#3": "same loop",
+	// keyed by construct = function : type path of the indexed operand # ordinal (neutral to renaming of locals)
+	"IP6Prefix:[8]uint16#1":         "IPv6 group index bounded by the colon count (<= 7 colons are accepted before the group index can reach 8): a relational value invariant of IP6Prefix, read and accepted, not re-proved",
+	"IP6Prefix:[8]uint16#2":         "same cell (read-modify-write of one group)",
+	"IP6Prefix:[8]uint16#4":         "number of groups after '::' bounded by the colon count (same invariant)",
+	"GetMsgSig:MsgSig.HdrSig#1":     "write index bounded by the early return: HdrSigLen starts at 0 and every increment is immediately followed by `if HdrSigLen >= len(HdrSig) { return }` (checked structurally)",
+	"MsgSig.String:MsgSig.HdrSig#1": "i < s.HdrSigLen, and HdrSigLen is stored only by GetMsgSig where it stays <= len(HdrSig) (who-writes checked); a caller that forges HdrSigLen in the exported struct is outside the property",
+	"MsgSig.String:MsgSig.HdrSig#2": "same loop",
+	"MsgSig.String:MsgSig.HdrSig#3": "same loop",
 }
 
 var idxExceptionChecks = map[string]func(c *Ctx) (string, bool){
-	"GetMsgSig:L:sig.HdrSig[+L:sig.HdrSigLen]": hdrSigLenBounded,
-	"MsgSig.String:L:s.HdrSig[+i]":             hdrSigLenBounded,
-	"MsgSig.String:L:s.HdrSig[+i]#2":           hdrSigLenBounded,
-	"MsgSig.String:L:s.HdrSig[+i]#3":           hdrSigLenBounded,
+	"GetMsgSig:MsgSig.HdrSig#1":     hdrSigLenBounded,
+	"MsgSig.String:MsgSig.HdrSig#1": hdrSigLenBounded,
+	"MsgSig.String:MsgSig.HdrSig#2": hdrSigLenBounded,
+	"MsgSig.String:MsgSig.HdrSig#3": hdrSigLenBounded,
 }
 
 // hdrSigLenBounded: HdrSigLen is stored only in GetMsgSig; every store is 0 or an increment that is
@@ -798,6 +799,7 @@ func ruleGFor(c *Ctx, rule string, only map[string]bool) {
 	}
 	sites := collectIdxSites(c.Prog)
 	cnt := map[string]int{}
+	shapeCnt := map[string]int{}
 	for _, s := range sites {
 		fk := ssaKey(s.fn)
 		if isInitFn(s.fn) || (only != nil && !only[fk]) {
@@ -828,8 +830,14 @@ func ruleGFor(c *Ctx, rule string, only map[string]bool) {
 			c.excepted(rule, key, pos, "trusted accessor: buf[f.Offs:f.Offs+f.Len] is safe iff the field is contained in the buffer (C05 containment, a value property)")
 			continue
 		}
-		if why, ok := idxExceptions[key]; ok {
-			if chk := idxExceptionChecks[key]; chk != nil {
+		tp := typedPath(s.x)
+		if tp == "" {
+			tp = typeShort(s.x.Type())
+		}
+		shapeCnt[fk+":"+tp]++
+		shape := fmt.Sprintf("%s:%s#%d", fk, tp, shapeCnt[fk+":"+tp])
+		if why, ok := idxExceptions[shape]; ok {
+			if chk := idxExceptionChecks[shape]; chk != nil {
 				if msg, good := chk(c); !good {
 					c.fail(rule, key, pos, "named exception no longer justified: "+msg)
 					continue
@@ -898,7 +906,7 @@ func ruleGFor(c *Ctx, rule string, only map[string]bool) {
 		} else if ok {
 			c.ok(rule, key, pos, strings.Join(msgs, "; "))
 		} else {
-			c.fail(rule, key, pos, "no proof rule discharges this "+s.kind+": "+strings.Join(msgs, "; "))
+			c.fail(rule, key, pos, "no proof rule discharges this "+s.kind+" [construct "+shape+"]: "+strings.Join(msgs, "; "))
 		}
 	}
 	if only == nil {
